@@ -210,6 +210,7 @@ DEFAULT_PROFILE = {
     "allow_mutable_props": False,
     "allow_bad_defaults": False,
     "p_sub": 0.35,
+    "allow_two_levels": True,
 }
 
 
@@ -377,6 +378,23 @@ def gen_class_spec(src, profile=None):
                         dnc = [n2 for n2 in dnc if n2 != x]
             if dnc:
                 sub["options"]["do_not_copy"] = dnc
+        if p["allow_two_levels"] and src.chance(0.35):
+            # a second level of subclassing: an intermediate class (plain or spec) between the parent and the subclass,
+            # which may override one inherited default; the roles stay parent / subclass, the hierarchy gets deeper
+            via = {"kind": src.choice(["plain", "plain", "spec"]), "redefault": []}
+            taken = {e["name"] for e in sub["redeclare"] + sub["redefault"]}
+            cands = [a for a in attrs if not a.get("flags") and a["name"] not in taken]
+            if cands and src.chance(0.6):
+                a = src.choice(cands)
+                via["redefault"].append({"name": a["name"], "value": good_value(src, a["kind"], small=True)})
+            if via["kind"] == "spec":
+                dnc0 = [a["name"] for a in attrs if a.get("flags", {}).get("do_not_copy")]
+                if isinstance(host["options"].get("do_not_copy"), list):
+                    dnc0 += [n2 for n2 in host["options"]["do_not_copy"] if n2 not in dnc0]
+                via["options"] = {"bootstrap": not src.chance(p["p_lazy"])}
+                if dnc0:
+                    via["options"]["do_not_copy"] = dnc0  # same declaration as the parent's
+            sub["via"] = via
         spec["sub"] = sub
     return spec
 
@@ -878,6 +896,18 @@ def materialise(spec, faults, name_suffix=""):
         sns = {"__module__": "specsim.generated", "__qualname__": "Sub" + name_suffix}
         sinfo = {k: dict(v) for k, v in info.items()}
         sann = {}
+        Parent = Host
+        via = sub.get("via")
+        if via:
+            mns = {"__module__": "specsim.generated", "__qualname__": "Mid" + name_suffix}
+            for e in via.get("redefault", []):
+                mns[e["name"]] = build_value(e["value"], classes, None)
+                sinfo[e["name"]]["default"] = ["lit", e["value"]]
+                sinfo[e["name"]]["redefaulted"] = True
+            Parent = type("Mid" + name_suffix, (Host,), mns)
+            if via["kind"] == "spec":
+                Parent = spec_class(**via.get("options", {}))(Parent)
+            classes["__mid__"] = Parent
         for e in sub.get("redefault", []):
             sns[e["name"]] = build_value(e["value"], classes, None)
             sinfo[e["name"]]["default"] = ["lit", e["value"]]
@@ -907,9 +937,9 @@ def materialise(spec, faults, name_suffix=""):
             class SubMixin:
                 def describe_sub(self):
                     return type(self).__name__
-            Sub = type("Sub" + name_suffix, (SubMixin, Host), sns)
+            Sub = type("Sub" + name_suffix, (SubMixin, Parent), sns)
         else:
-            Sub = type("Sub" + name_suffix, (Host,), sns)
+            Sub = type("Sub" + name_suffix, (Parent,), sns)
         if sub["kind"] == "spec":
             Sub = spec_class(**sub.get("options", {}))(Sub)
         classes["sub"] = Sub
